@@ -9,7 +9,15 @@ use std::sync::atomic::{AtomicBool, AtomicU64, Ordering};
 use std::sync::Mutex;
 use std::time::Instant;
 
-pub const VERIF_ROOT: &str = "/verif";
+/// Root of the repository under test (`/repo`, or a snapshot of it given by $E57_REPO).
+pub fn repo_root() -> PathBuf {
+    PathBuf::from(std::env::var("E57_REPO").unwrap_or_else(|_| "/repo".to_string()))
+}
+
+/// Root of the verification tree (`/verif`, or a snapshot of it given by $VERIF_ROOT).
+pub fn verif_root() -> PathBuf {
+    PathBuf::from(std::env::var("VERIF_ROOT").unwrap_or_else(|_| "/verif".to_string()))
+}
 
 #[derive(Clone, Copy, PartialEq, Eq, Debug)]
 pub enum Tier {
@@ -305,7 +313,7 @@ pub struct KnownFinding {
 }
 
 pub fn load_known() -> Vec<KnownFinding> {
-    let p = Path::new(VERIF_ROOT).join("known_findings.json");
+    let p = verif_root().join("known_findings.json");
     match std::fs::read_to_string(&p) {
         Ok(s) => match serde_json::from_str::<Vec<KnownFinding>>(&s) {
             Ok(v) => v,
@@ -334,7 +342,7 @@ fn hex(b: &[u8]) -> String {
 }
 
 pub fn out_dir() -> PathBuf {
-    let d = Path::new(VERIF_ROOT).join("out").join("replays");
+    let d = verif_root().join("out").join("replays");
     let _ = std::fs::create_dir_all(&d);
     d
 }
@@ -573,7 +581,7 @@ pub fn run_check<C: Check>(opts: &RunOpts) -> i32 {
 
     // ---- committed regression replays (seconds-long tier)
     let mut regressions = 0usize;
-    let rdir = Path::new(VERIF_ROOT).join("replays").join(id);
+    let rdir = verif_root().join("replays").join(id);
     let mut reg_files: Vec<PathBuf> = std::fs::read_dir(&rdir).map(|d| d.flatten().map(|e| e.path()).filter(|p| p.extension().map(|e| e == "json").unwrap_or(false)).collect()).unwrap_or_default();
     reg_files.sort();
     let mut known_replays: BTreeMap<String, bool> = BTreeMap::new();
@@ -701,7 +709,7 @@ pub fn run_check<C: Check>(opts: &RunOpts) -> i32 {
     for k in known.iter().filter(|k| k.property == id && k.status == "open") {
         let still = match &k.replay {
             Some(r) => {
-                let p = Path::new(VERIF_ROOT).join(r);
+                let p = verif_root().join(r);
                 match std::fs::read_to_string(&p).ok().and_then(|t| serde_json::from_str::<ReplayFile<C::Case>>(&t).ok()) {
                     Some(rf) => matches!(run_guarded::<C>(&rf.case).outcome, Outcome::Known { ref key, .. } if *key == k.key),
                     None => {
@@ -780,7 +788,7 @@ fn write_evidence<C: Check>(
         "wall_s": started.elapsed().as_secs_f64(),
         "violations": violations,
     });
-    let dir = Path::new(VERIF_ROOT).join("evidence");
+    let dir = verif_root().join("evidence");
     let _ = std::fs::create_dir_all(&dir);
     let path = dir.join(format!("{}.json", C::ID));
     if let Err(e) = std::fs::write(&path, serde_json::to_string_pretty(&ev).unwrap_or_default()) {
@@ -918,7 +926,7 @@ struct Child {
 fn spawn_self(args: &[String], tag: &str) -> std::io::Result<Child> {
     use std::io::BufRead;
     let exe = std::env::current_exe()?;
-    let dir = Path::new(VERIF_ROOT).join("out").join("workers");
+    let dir = verif_root().join("out").join("workers");
     std::fs::create_dir_all(&dir)?;
     let stderr_path = dir.join(format!("{}-{}.stderr", std::process::id(), tag));
     let errf = std::fs::File::create(&stderr_path)?;
@@ -1027,7 +1035,7 @@ pub fn supervise<C: Check>(opts: &RunOpts) -> i32 {
 
     // regression replays first (each in its own supervised child)
     let mut regressions = 0usize;
-    let rdir = Path::new(VERIF_ROOT).join("replays").join(id);
+    let rdir = verif_root().join("replays").join(id);
     let mut reg_files: Vec<PathBuf> = std::fs::read_dir(&rdir).map(|d| d.flatten().map(|e| e.path()).filter(|p| p.extension().map(|e| e == "json").unwrap_or(false)).collect()).unwrap_or_default();
     reg_files.sort();
     for p in &reg_files {
@@ -1280,7 +1288,7 @@ pub fn supervise<C: Check>(opts: &RunOpts) -> i32 {
     // known findings from their recorded inputs
     for k in known.iter().filter(|k| k.property == id && k.status == "open") {
         let still = match &k.replay {
-            Some(r) => matches!(replay_supervised(id, opts, &Path::new(VERIF_ROOT).join(r), C::case_timeout_s() * 3), ReplayEnd::Known(ref key) if *key == k.key),
+            Some(r) => matches!(replay_supervised(id, opts, &verif_root().join(r), C::case_timeout_s() * 3), ReplayEnd::Known(ref key) if *key == k.key),
             None => known_hits.lock().unwrap().contains_key(&k.key),
         };
         if still {
